@@ -50,7 +50,7 @@ fn twin(rp: &RParams, s: &[f64; 6]) -> [f64; 6] {
 fn run_case(_kind: &str, idx: u64, rng: &mut Rng, mon: &mut Mon, _tier: Tier) {
     let robot = gen_robot(rng, idx, RobotMode::NonDegenerate, 0.0);
     let rp = robot.rp;
-    let kin = OPWKinematics::new(to_params(&rp));
+    let kin = make_solver(rng, &rp);
     let mut q = joints_uniform(rng, PI);
     // a fifth of the joint vectors consists of round angles (multiples of 15 degrees): flange
     // orientations with exact zeros / equal entries, where matrix -> quaternion conversions change case
